@@ -35,6 +35,9 @@ func main() {
 			fmt.Println(id, core.Lookup(id).Instr)
 		}
 	default:
+		if f, ok := core.ExtraCommands[os.Args[1]]; ok {
+			os.Exit(f(os.Args[2:]))
+		}
 		fmt.Fprintln(os.Stderr, "unknown command", os.Args[1])
 		os.Exit(2)
 	}
